@@ -91,14 +91,14 @@ Section Main.
   (* the same with the canonical reader stream: the statement in the form
      parse (pump (itree_of_events (generate ...))) = Ok o [] *)
   Theorem roundtrip_pump : forall n cl o,
-    wf_model u cl = true -> fits n cl o = true ->
+    wf_model u cl = true -> fits n cl o = true -> noq o = true ->
     exists evs,
       EventGen.generate ign c u o = EventGen.Ok evs
       /\ Parser.parse cfg c u (Some cl) (pump (itree_of_events (map (of_wevent c) evs))) = Parser.Ok o [].
   Proof.
-    intros n cl o Hwf Hfit. pose proof (wf_model_wfr cl Hwf) as Hw.
+    intros n cl o Hwf Hfit Hnq. pose proof (wf_model_wfr cl Hwf) as Hw.
     exists (bflat (gobj c u ign n None o)). split; [apply (generate_ok n cl o Hwf Hfit)|].
     rewrite (events_mean c u ok py_isspace ign n cl o Hw Hfit). cbn [pump]. unfold Parser.parse.
-    apply (parse_reads n _ cl o _ Hwf Hfit). apply reads_pump. apply (plain_obj c u ok ign n cl o None Hw Hfit).
+    apply (parse_reads n _ cl o _ Hwf Hfit). apply reads_pump. apply (plain_obj c u ok ign n cl o None Hw Hfit Hnq).
   Qed.
 End Main.
